@@ -33,6 +33,8 @@ mod decision_tracker;
 mod diagnostics;
 mod encoding;
 pub(crate) mod variable_map;
+#[cfg(feature = "verif-hooks")]
+pub mod verif;
 mod watch_map;
 
 /// Describes the problem that is to be solved by the solver.
@@ -184,6 +186,10 @@ pub(crate) struct SolverState {
 
     /// Activity score per package.
     name_activity: Vec<f32>,
+
+    /// Event counters that are only maintained for the verification hooks.
+    #[cfg(feature = "verif-hooks")]
+    verif_counters: verif::VerifCounters,
 }
 
 impl<D: DependencyProvider> Solver<D, NowOrNeverRuntime> {
@@ -395,6 +401,11 @@ impl<D: DependencyProvider, RT: AsyncRuntime> Solver<D, RT> {
 
         let mut level = starting_level;
 
+        #[cfg(feature = "verif-hooks")]
+        {
+            self.state.verif_counters.run_sat_calls += 1;
+        }
+
         loop {
             if level == starting_level {
                 tracing::trace!("Level {starting_level}: Resetting the decision loop");
@@ -472,6 +483,10 @@ impl<D: DependencyProvider, RT: AsyncRuntime> Solver<D, RT> {
                         );
                         level = starting_level;
                         self.state.decision_tracker.undo_until(starting_level);
+                        #[cfg(feature = "verif-hooks")]
+                        {
+                            self.state.verif_counters.restarts += 1;
+                        }
                         continue;
                     }
                 }
@@ -566,6 +581,10 @@ impl<D: DependencyProvider, RT: AsyncRuntime> Solver<D, RT> {
             if let Some(_first_conflicting_clause_id) = conflicting_clauses.into_iter().next() {
                 self.state.decision_tracker.undo_until(starting_level);
                 level = starting_level;
+                #[cfg(feature = "verif-hooks")]
+                {
+                    self.state.verif_counters.restarts += 1;
+                }
             }
         }
     }
@@ -933,6 +952,12 @@ impl<D: DependencyProvider, RT: AsyncRuntime> Solver<D, RT> {
         attempted_value: bool,
         conflicting_clause: ClauseId,
     ) -> Result<u32, Conflict> {
+        #[cfg(feature = "verif-hooks")]
+        {
+            self.state.verif_counters.conflicts += 1;
+            self.state.verif_counters.max_conflict_level =
+                self.state.verif_counters.max_conflict_level.max(level);
+        }
         {
             tracing::debug!(
                 "├┬ Propagation conflicted: could not set {solvable} to {attempted_value}",
@@ -986,6 +1011,14 @@ impl<D: DependencyProvider, RT: AsyncRuntime> Solver<D, RT> {
             self.analyze(level, conflicting_solvable, conflicting_clause);
         let old_level = level;
         level = new_level;
+        #[cfg(feature = "verif-hooks")]
+        {
+            self.state.verif_counters.max_backjump = self
+                .state
+                .verif_counters
+                .max_backjump
+                .max(old_level.saturating_sub(new_level));
+        }
 
         // Optimization: propagate right now, since we know that the clause is a unit
         // clause
